@@ -324,6 +324,24 @@ def run_case(pid, p, rng, res, spec, tier):
                 viol(res, pid, year, 'work-ceiling', str(o2.exc), p, f'refuse-from-{k}', spec)
             for s, m in oracles.c06(o2, tv2):
                 viol(res, pid, year, s, m, p, f'refuse-from-{k}', spec)
+        # optional lines the return computes anyway (another line reads them), asked for by name as well: being asked for
+        # twice over - by name and by the line that reads them - does not double the work (every answer prompted, so they wait)
+        if out.exc is None:
+            reqd = {f.name() for fo in out.solver.forms.values() for f in fo.required_fields()}
+            opt = sorted(l for l in tv.stored if l not in reqd and l.split('.')[0].split(':')[0] not in INPUT_FORM_NAMES
+                         and any(a[0] in ('unmet_line', 'missing_input') for a in tv.attempts.get(l, ())))
+            if opt:
+                names = rng.sample(opt, min(4, len(opt)))
+                # (a line can only be named once its form is loaded: the forms of the named lines are requested too)
+                o3, tv3, t3 = traced(fresh(), field_names=names, schedule_seed=rng.choice([None, 6]), forms=list(p.forms()) + sorted({n_.split('.')[0] for n_ in names} - set(p.forms())))
+                res.count('asked_by_name_' + drive.verdict_class(o3).split(':')[0])
+                o3.field_names = list(names)
+                res.evaluations += 1
+                res.count('solves')
+                res.count('solves_with_optional_lines_asked_by_name')
+                res.count('ev_ATTEMPT', t3.n_attempts)
+                for s, m in oracles.c06(o3, tv3):
+                    viol(res, pid, year, s, m, p, f'asked-by-name:{names[0]}', spec)
     elif pid == 'C12':
         if out.exc is None:
             v, n = oracles.c12(out, tv)
@@ -371,6 +389,18 @@ def run_case(pid, p, rng, res, spec, tier):
                 res.evaluations += 1
                 if tv3.prompts or o3.exc is not None or o3.ret is not True or drive.solution_map(o3) != drive.solution_map(out):
                     viol(res, pid, year, 'never-read-input-required', f'after deleting never-read inputs the outcome changed: {drive.verdict_class(o3)} prompts {[x[0] for x in tv3.prompts][:3]}', p, 'run3', spec)
+            # ... and the other way round: the file also holds entries for inputs of the participating forms that no line reads
+            # (a left-over of a `list-form-inputs` template, "not applicable" where the filer has no spouse): whatever they hold, they are not needed
+            unread = sorted(i_.name() for fo in out.solver.forms.values() for i_ in fo.inputs() if i_.name() not in read and i_.name() not in out.final_inputs)
+            if unread:
+                junk = dict(out.final_inputs)
+                for n_, k_ in enumerate(rng.sample(unread, min(6, len(unread)))):
+                    junk[k_] = ['not applicable', '', 'n/a', '?'][n_ % 4]
+                res.count('histories_with_unread_inputs_holding_junk')
+                o4, tv4, _ = traced(fresh(), file_map=junk, refuse_from=0)
+                res.evaluations += 1
+                if tv4.prompts or o4.exc is not None or o4.ret is not True or drive.solution_map(o4) != drive.solution_map(out):
+                    viol(res, pid, year, 'never-read-input-required', f'with junk in inputs that no line reads ({sorted(set(junk) - set(out.final_inputs))[:3]}) the outcome changed: {drive.verdict_class(o4)} {type(o4.exc).__name__ if o4.exc else ""} {str(o4.exc)[:80] if o4.exc else ""}', p, 'run4', spec)
     elif pid == 'C05':
         from hv.monitors import c05
         base = c05.canon(out, tv)
